@@ -147,6 +147,7 @@ __CPROVER_ensures(__CPROVER_return_value == -1 ==> (xv_errno > 0 && xv_errno != 
  *   -1 => errno > 0 (EAGAIN: still in progress; else the errno of the last failed attempt / ENOENT), outputs untouched. */
 int xb_tc_rc, xb_tc_errno;    /* ghost: result and errno of the last tconnect_get_connected_fd */
 long xb_tc_calls, xb_tc_destroys;
+long xb_tc_creates, xb_q_creates;     /* ghost: number of attempt objects / resolver queries made */
 #define XB_FD_OK(fd) ((fd) >= 0 && (fd) < XB_NFD && xb_fdt.e[fd].open && xb_fdt.e[fd].nonblock)
 int tconnect_get_connected_fd(struct tconnect *tconnect, int *fd, int64_t *scope, struct tcp_opts *tcp_opts)
 __CPROVER_requires(tconnect != NULL && __CPROVER_w_ok(fd, sizeof(*fd)) && __CPROVER_w_ok(scope, sizeof(*scope)) && __CPROVER_w_ok(tcp_opts, sizeof(*tcp_opts)))
@@ -185,6 +186,7 @@ __CPROVER_ensures(xb_tc_connects == __CPROVER_old(xb_tc_connects) + 1 && B_SO_RA
 _Bool xb_q_completed;
 int xb_q_rc, xb_q_errno;      /* ghost: result and errno of the last xcm_dns_query_result */
 long xb_q_destroys, xb_q_processes;
+size_t xb_la_len;     /* ghost (never assigned): strlen of the string handed to btcp_set_local_addr */
 bool xcm_dns_query_completed(struct xcm_dns_query *query)
 __CPROVER_requires(query != NULL)
 __CPROVER_assigns()
@@ -239,6 +241,7 @@ static inline void xb_ghost_havoc(void)
     xb_eff_errno = nondet_int(); xb_eff_calls = nondet_long();
     xb_tc_rc = nondet_int(); xb_tc_errno = nondet_int(); xb_tc_calls = nondet_long(); xb_tc_destroys = nondet_long(); xb_tc_connects = nondet_long();
     xb_q_completed = nondet_bool(); xb_q_rc = nondet_int(); xb_q_errno = nondet_int(); xb_q_destroys = nondet_long(); xb_q_processes = nondet_long();
+    xb_la_len = nondet_size_t(); xb_tc_creates = nondet_long(); xb_q_creates = nondet_long();
 }
 
 /* ================================================================================================================ */
@@ -256,15 +259,17 @@ static inline void xb_ghost_havoc(void)
 #define BT_REG_OK(s) (BT(s)->fd_reg_id >= 0 && (xb_t_reg == BT(s)->fd_reg_id ==> (xb_t_reg_live && xb_t_reg_fd == BT(s)->fd && xb_t_reg_owner == 1)))
 #define BT_BELL_OK(s) (BT(s)->conn.bell_reg_id >= 0 && (xb_t_bell == BT(s)->conn.bell_reg_id ==> xb_t_bell_live))
 /* the facts assert_conn_socket() states for the states a socket can be in after xcm_connect/xcm_accept returned, plus:
- * ready => the descriptor is open and O_NONBLOCK (C05, C08) and registered with xpoll;
+ * ready => the descriptor is open and O_NONBLOCK (C05, C08) and registered with xpoll; in every state the descriptor and its
+ * registration are absent (-1) or open/live (a connection that went bad keeps its descriptor until it is closed);
  * bad => the stored errno is a real one and not EAGAIN (C06: it is what every later call reports);
  * closed => the kernel has reported end of stream (C06: "once the close has been seen") */
 #define BT_CONN_OK(s) (BT_CONN_OK_BUT_EOF(s) && (BT_IS(s, closed) ==> xv_rx_eof))
 #define BT_CONN_OK_BUT_EOF(s) ((s)->type == xcm_socket_type_conn && \
         BST(s) >= conn_state_resolving && BST(s) <= conn_state_bad && \
-        (BT_IS(s, resolving) ==> (BT(s)->conn.query != NULL && BT(s)->conn.tconnect != NULL && BT(s)->fd == -1)) && \
-        (BT_IS(s, connecting) ==> (BT(s)->conn.tconnect != NULL && BT(s)->fd == -1)) && \
+        (BT_IS(s, resolving) ==> (BT(s)->conn.query != NULL && BT(s)->conn.tconnect != NULL && BT(s)->fd == -1 && BT(s)->fd_reg_id == -1)) && \
+        (BT_IS(s, connecting) ==> (BT(s)->conn.tconnect != NULL && BT(s)->fd == -1 && BT(s)->fd_reg_id == -1)) && \
         (BT_IS(s, ready) ==> (XB_FD_OK(BT(s)->fd) && BT_REG_OK(s))) && \
+        (BT(s)->fd == -1 || XB_FD_OK(BT(s)->fd)) && (BT(s)->fd_reg_id == -1 || BT_REG_OK(s)) && \
         (BT_IS(s, bad) ==> (BRSN(s) > 0 && BRSN(s) != EAGAIN)) && \
         ((BT_IS(s, resolving) || BT_IS(s, connecting)) ==> BT(s)->conn.tcp_connect_timeout >= 0) && \
         BT_DEAD_IS_STATE(s) && B_OPTS_VALID(&BT(s)->conn.tcp_opts))
@@ -283,10 +288,20 @@ static inline void xb_ghost_havoc(void)
                         XB_ENV_RANGE && XP_RANGE_LIM(lim) && B_SO_RANGE && XB_CNT_LIM(xb_eff_calls, lim) && XB_CNT_LIM(xb_tc_calls, lim) && XB_CNT_LIM(xb_tc_destroys, lim) && \
                         XB_CNT_LIM(xb_tc_connects, lim) && XB_CNT_LIM(xb_q_destroys, lim) && XB_CNT_LIM(xb_q_processes, lim))
 #define BT_GHOST_RANGE BT_GHOST_LIM(XB_CALLS_MAX)            /* entry of a public operation */
-/* helpers are entered in mid-operation: try_establish -> try_finish_resolution (L1) -> begin_connect (L2) -> try_finish_connect (L3) */
+/* helpers are entered in mid-operation: try_establish (L1) -> try_finish_resolution (L2) -> begin_connect (L3) -> try_finish_connect (L4) */
 #define BT_GHOST_RANGE_L1 BT_GHOST_LIM(XB_CALLS_MAX + 8)
 #define BT_GHOST_RANGE_L2 BT_GHOST_LIM(XB_CALLS_MAX + 16)
-#define BT_GHOST_RANGE_L3 BT_GHOST_LIM(XB_CALLS_MAX + 32)
+#define BT_GHOST_RANGE_L3 BT_GHOST_LIM(XB_CALLS_MAX + 24)
+#define BT_GHOST_RANGE_L4 BT_GHOST_LIM(XB_CALLS_MAX + 32)
+/* helper objects are destroyed exactly when their pointer is reset to NULL, once (C08) */
+#define BT_TC_ACCOUNT(s) (BT(s)->conn.tconnect == __CPROVER_old(BT(s)->conn.tconnect) ? xb_tc_destroys == __CPROVER_old(xb_tc_destroys) \
+                          : (BT(s)->conn.tconnect == NULL && xb_tc_destroys == __CPROVER_old(xb_tc_destroys) + 1))
+#define BT_Q_ACCOUNT(s) (BT(s)->conn.query == __CPROVER_old(BT(s)->conn.query) ? xb_q_destroys == __CPROVER_old(xb_q_destroys) \
+                          : (BT(s)->conn.query == NULL && xb_q_destroys == __CPROVER_old(xb_q_destroys) + 1))
+/* every establishment function makes at most two calls of each kind */
+#define BT_C_BOUNDED(c) ((c) >= __CPROVER_old(c) && (c) <= __CPROVER_old(c) + 2)
+#define BT_EST_BOUNDED (BT_C_BOUNDED(xb_eff_calls) && BT_C_BOUNDED(xb_tc_calls) && BT_C_BOUNDED(xb_tc_destroys) && BT_C_BOUNDED(xb_tc_connects) && \
+                        BT_C_BOUNDED(xb_q_destroys) && BT_C_BOUNDED(xb_q_processes))
 #define BT_NO_IO (xb_send_calls == __CPROVER_old(xb_send_calls) && xb_recv_calls == __CPROVER_old(xb_recv_calls))
 #define BT_STATE_SAME(s) (BST(s) == __CPROVER_old(BST(s)) && BRSN(s) == __CPROVER_old(BRSN(s)) && BT(s)->fd == __CPROVER_old(BT(s)->fd) && \
                           BT(s)->fd_reg_id == __CPROVER_old(BT(s)->fd_reg_id))
@@ -305,12 +320,14 @@ static inline void xb_ghost_havoc(void)
 
 /* ---- try_finish_connect: poll the connect attempt */
 static void try_finish_connect(struct xcm_socket *s)
-__CPROVER_requires(__CPROVER_is_fresh(s, BT_SIZE) && BT_CONN_OK(s) && BT_IS(s, connecting) && BT_GHOST_RANGE_L3)
+__CPROVER_requires(__CPROVER_is_fresh(s, BT_SIZE) && BT_CONN_OK(s) && BT_IS(s, connecting) && BT_GHOST_RANGE_L4)
 __CPROVER_assigns(BST(s), BRSN(s), BT(s)->fd, BT(s)->fd_reg_id, BT(s)->scope, BT(s)->conn.tconnect)
 __CPROVER_assigns(xv_errno, xv_lower_dead, XP_REG_ROW, B_SO_ASSIGNS, xb_eff_errno, xb_eff_calls, xb_tc_rc, xb_tc_errno, xb_tc_calls, xb_tc_destroys)
 /* errno is never changed (the outcome is reported by the public operation from the stored state) */
-__CPROVER_ensures(xv_errno == __CPROVER_old(xv_errno) && xb_tc_calls == __CPROVER_old(xb_tc_calls) + 1 && B_SO_RANGE)
+__CPROVER_ensures(xv_errno == __CPROVER_old(xv_errno) && xb_tc_calls == __CPROVER_old(xb_tc_calls) + 1 && B_SO_RANGE && BT_C_BOUNDED(xb_eff_calls) && BT_C_BOUNDED(xb_tc_destroys))
 __CPROVER_ensures((BT_IS(s, connecting) || BT_IS(s, ready) || BT_IS(s, bad)) && BT_CONN_OK(s))
+/* PO[C08] try_finish_connect.attempt_destroyed_once */
+__CPROVER_ensures(BT_TC_ACCOUNT(s))
 /* PO[C13] try_finish_connect.in_progress: EAGAIN => still connecting, nothing else changed */
 __CPROVER_ensures((xb_tc_rc == -1 && xb_tc_errno == EAGAIN) ==> (BT_IS(s, connecting) && BT(s)->conn.tconnect == __CPROVER_old(BT(s)->conn.tconnect) && \
                    BT(s)->fd == -1 && BT(s)->fd_reg_id == __CPROVER_old(BT(s)->fd_reg_id) && xb_tc_destroys == __CPROVER_old(xb_tc_destroys)))
@@ -332,7 +349,7 @@ __CPROVER_ensures(xb_tc_rc == 0 ==> (XB_FD_OK(BT(s)->fd) && BT_REG_OK(s) && (xb_
 /* ---- begin_connect: resolve the local address (if any), start the attempt(s), poll once */
 #define BT_LADDR_OK(s) (BT(s)->laddr[XCM_ADDR_MAX] == 0)
 static void begin_connect(struct xcm_socket *s, const struct xcm_addr_ip *remote_ips, int num_remote_ips)
-__CPROVER_requires(__CPROVER_is_fresh(s, BT_SIZE) && BT_PROTO(s) && BT_CONN_OK(s) && BT_IS(s, connecting) && BT_GHOST_RANGE_L2 && BT_LADDR_OK(s))
+__CPROVER_requires(__CPROVER_is_fresh(s, BT_SIZE) && BT_PROTO(s) && BT_CONN_OK(s) && BT_IS(s, connecting) && BT_GHOST_RANGE_L3 && BT_LADDR_OK(s))
 __CPROVER_requires(num_remote_ips >= 1 && num_remote_ips <= XCM_DNS_MAX_RESULT_SIZE && __CPROVER_is_fresh(remote_ips, num_remote_ips * sizeof(struct xcm_addr_ip)))
 __CPROVER_assigns(BST(s), BRSN(s), BT(s)->fd, BT(s)->fd_reg_id, BT(s)->scope, BT(s)->conn.tconnect)
 __CPROVER_assigns(xv_errno, xv_lower_dead, XP_REG_ROW, B_SO_ASSIGNS, xb_eff_errno, xb_eff_calls, xb_tc_rc, xb_tc_errno, xb_tc_calls, xb_tc_destroys, xb_tc_connects)
@@ -342,7 +359,10 @@ __CPROVER_assigns(xv_errno, xv_lower_dead, XP_REG_ROW, B_SO_ASSIGNS, xb_eff_errn
 __CPROVER_assigns(xv_blocked)
 #endif
 __CPROVER_ensures(xv_errno == __CPROVER_old(xv_errno) && B_SO_RANGE && xb_tc_calls <= __CPROVER_old(xb_tc_calls) + 1 && xb_tc_connects <= __CPROVER_old(xb_tc_connects) + 1)
+__CPROVER_ensures(BT_C_BOUNDED(xb_eff_calls) && BT_C_BOUNDED(xb_tc_calls) && BT_C_BOUNDED(xb_tc_destroys) && BT_C_BOUNDED(xb_tc_connects))
 __CPROVER_ensures((BT_IS(s, connecting) || BT_IS(s, ready) || BT_IS(s, bad)) && BT_CONN_OK(s))
+/* PO[C08] begin_connect.attempt_destroyed_once */
+__CPROVER_ensures(BT_TC_ACCOUNT(s))
 /* PO[C13,C06] begin_connect.failure_is_stored: an attempt that could not be started, or failed at once, leaves the socket bad with a real errno */
 __CPROVER_ensures((xb_tc_connects == __CPROVER_old(xb_tc_connects) || xb_tc_calls == __CPROVER_old(xb_tc_calls)) ==> (BT_IS(s, bad) && BRSN(s) > 0 && BRSN(s) != EAGAIN))
 /* PO[C11] begin_connect.ready_means_options_in_force */
@@ -351,10 +371,11 @@ __CPROVER_ensures(BT_IS(s, ready) ==> B_OPTS_INFORCE(BT(s)->fd, &BT(s)->conn.tcp
 
 /* ---- try_finish_resolution: poll the resolver; on an answer start connecting */
 static void try_finish_resolution(struct xcm_socket *s)
-__CPROVER_requires(__CPROVER_is_fresh(s, BT_SIZE) && BT_PROTO(s) && BT_CONN_OK(s) && BT_IS(s, resolving) && BT_GHOST_RANGE_L1 && BT_LADDR_OK(s))
+__CPROVER_requires(__CPROVER_is_fresh(s, BT_SIZE) && BT_PROTO(s) && BT_CONN_OK(s) && BT_IS(s, resolving) && BT_GHOST_RANGE_L2 && BT_LADDR_OK(s))
 __CPROVER_assigns(BT_EST_FIELDS(s))
 __CPROVER_assigns(xv_errno, xv_lower_dead, XP_REG_ROW, B_SO_ASSIGNS, xb_eff_errno, xb_eff_calls, xb_tc_rc, xb_tc_errno, xb_tc_calls, xb_tc_destroys, xb_tc_connects, xb_q_rc, xb_q_errno, xb_q_destroys)
 __CPROVER_ensures(xv_errno == __CPROVER_old(xv_errno) && B_SO_RANGE && BT_CONN_OK(s))
+__CPROVER_ensures(BT_C_BOUNDED(xb_eff_calls) && BT_C_BOUNDED(xb_tc_calls) && BT_C_BOUNDED(xb_tc_destroys) && BT_C_BOUNDED(xb_tc_connects) && BT_C_BOUNDED(xb_q_destroys))
 __CPROVER_ensures((xb_q_rc == -1 || xb_q_rc >= 1) && (BT_IS(s, resolving) || BT_IS(s, connecting) || BT_IS(s, ready) || BT_IS(s, bad)))
 /* PO[C13] try_finish_resolution.in_progress: EAGAIN => still resolving, the query lives on */
 __CPROVER_ensures((xb_q_rc == -1 && xb_q_errno == EAGAIN) ==> (BT_IS(s, resolving) && BT(s)->conn.query == __CPROVER_old(BT(s)->conn.query) && \
@@ -363,6 +384,8 @@ __CPROVER_ensures((xb_q_rc == -1 && xb_q_errno == EAGAIN) ==> (BT_IS(s, resolvin
 __CPROVER_ensures((xb_q_rc == -1 && xb_q_errno != EAGAIN) ==> (BT_IS(s, bad) && BRSN(s) == xb_q_errno && BRSN(s) == ENOENT && xb_tc_connects == __CPROVER_old(xb_tc_connects)))
 /* PO[C13] try_finish_resolution.answer_starts_connecting */
 __CPROVER_ensures(xb_q_rc >= 1 ==> (BT_IS(s, connecting) || BT_IS(s, ready) || BT_IS(s, bad)))
+/* PO[C08] try_finish_resolution.helpers_destroyed_once */
+__CPROVER_ensures(BT_TC_ACCOUNT(s) && BT_Q_ACCOUNT(s))
 /* PO[C08] try_finish_resolution.query_released_once */
 __CPROVER_ensures(!BT_IS(s, resolving) ==> (BT(s)->conn.query == NULL && xb_q_destroys == __CPROVER_old(xb_q_destroys) + 1))
 __CPROVER_ensures(BT_IS(s, ready) ==> B_OPTS_INFORCE(BT(s)->fd, &BT(s)->conn.tcp_opts))
@@ -372,12 +395,14 @@ __CPROVER_ensures(BT_IS(s, ready) ==> B_OPTS_INFORCE(BT(s)->fd, &BT(s)->conn.tcp
 #define BT_OLD_IS(s, st) (__CPROVER_old(BST(s)) == conn_state_##st)
 #define BT_OLD_ESTABLISHING(s) (BT_OLD_IS(s, resolving) || BT_OLD_IS(s, connecting))
 static void try_establish(struct xcm_socket *s)
-__CPROVER_requires(__CPROVER_is_fresh(s, BT_SIZE) && BT_PROTO(s) && BT_CONN_OK(s) && BT_GHOST_RANGE && BT_LADDR_OK(s))
+__CPROVER_requires(__CPROVER_is_fresh(s, BT_SIZE) && BT_PROTO(s) && BT_CONN_OK(s) && BT_GHOST_RANGE_L1 && BT_LADDR_OK(s))
 __CPROVER_assigns(BT_EST_FIELDS(s), xv_errno, BT_EST_GHOSTS)
-__CPROVER_ensures(BT_CONN_OK(s) && B_SO_RANGE)
+__CPROVER_ensures(BT_CONN_OK(s) && B_SO_RANGE && BT_EST_BOUNDED)
 /* PO[C06] try_establish.terminal_and_ready_untouched: ready, closed and bad are left exactly as they are (no module is even called) */
 __CPROVER_ensures(!BT_OLD_ESTABLISHING(s) ==> (BT_STATE_SAME(s) && xv_errno == __CPROVER_old(xv_errno) && xv_lower_dead == __CPROVER_old(xv_lower_dead) && \
                    XP_REG_SAME && xb_tc_calls == __CPROVER_old(xb_tc_calls) && xb_q_processes == __CPROVER_old(xb_q_processes)))
+/* PO[C08] try_establish.helpers_destroyed_once */
+__CPROVER_ensures(BT_TC_ACCOUNT(s) && BT_Q_ACCOUNT(s))
 /* PO[C13] try_establish.forward_only: the state machine only moves forward */
 __CPROVER_ensures(BT_OLD_IS(s, connecting) ==> ((BT_IS(s, connecting) || BT_IS(s, ready) || BT_IS(s, bad)) && xv_errno == __CPROVER_old(xv_errno)))
 __CPROVER_ensures(BT_OLD_IS(s, resolving) ==> (BT_IS(s, resolving) || BT_IS(s, connecting) || BT_IS(s, ready) || BT_IS(s, bad)))
@@ -402,6 +427,7 @@ static int btcp_send(struct xcm_socket *__restrict s, const void *__restrict buf
 __CPROVER_requires(BT_IO_REQUIRES(s))
 __CPROVER_requires(len <= XB_LEN_MAX && __CPROVER_is_fresh(buf, len == 0 ? 1 : len))
 __CPROVER_assigns(BT_IO_ASSIGNS(s), LOWER_SEND_ASSIGNS, XB_SEND_REC, BCN(s, from_app_bytes), BCN(s, to_lower_bytes))
+/* PO[C06,C17] btcp_send.state_agrees_with_events: the invariant; in particular closed/bad exactly after an event that ends the connection; from_app == to_lower */
 __CPROVER_ensures(BT_CONN_OK_BUT_EOF(s) && BT_CNT_RANGE_OUT(s) && BT_CNT_INV(s) && LOWER_DEAD_MONOTONE)
 /* PO[C02,C06] btcp_send.lower_contract: what unit framing assumes of xcm_tp_socket_send (contracts/lower.h) */
 __CPROVER_ensures(len >= 1 ==> LOWER_SEND_ENSURES(__CPROVER_return_value, buf, len))
@@ -480,6 +506,7 @@ __CPROVER_ensures((xb_recv_calls != __CPROVER_old(xb_recv_calls) && xb_recv_ret 
 __CPROVER_ensures(__CPROVER_return_value > 0 ==> BT_IS(s, ready))
 /* PO[C06,C02] btcp_receive.closed_only_after_eof: the connection is declared closed by the peer only when the kernel reported end of stream */
 __CPROVER_ensures(BT_IS(s, closed) ==> xv_rx_eof)
+/* PO[C06,C02] btcp_receive.state_agrees_with_events: the invariant; in particular closed/bad exactly after an event that ends the connection (fatal errno, end of stream) */
 __CPROVER_ensures(BT_CONN_OK_BUT_EOF(s))
 /* PO[C17] btcp_receive.cnt: from_lower/to_app grow by exactly the delivered bytes; nothing is counted for EOF or a failure; the send side is untouched */
 __CPROVER_ensures(__CPROVER_return_value > 0 \
@@ -575,6 +602,189 @@ __CPROVER_ensures((s->type == xcm_socket_type_server && BT_MY_REG(s)) ==> xb_t_r
 /* PO[C16] btcp_update.nothing_else */
 __CPROVER_ensures((!BT_MY_REG(s) || (s->type == xcm_socket_type_conn && !BT_IS(s, ready))) ==> xb_t_reg_event == __CPROVER_old(xb_t_reg_event))
 __CPROVER_ensures((s->type == xcm_socket_type_server || !BT_MY_BELL(s)) ==> xb_t_bell_ringing == __CPROVER_old(xb_t_bell_ringing))
+;
+
+/* ================================================================================================================ */
+/* creation-time attributes (C11): "refused with EACCES afterwards, changing nothing"                               */
+/* ================================================================================================================ */
+/* xcm_tp.c: memcpy of sizeof(double) bytes (bit pattern: also NaN payloads) */
+#define XB_BITS(p) (*(const uint64_t *)(p))
+void xcm_tp_set_double_attr(const void *buf, size_t len, double *value)
+__CPROVER_requires(__CPROVER_r_ok(buf, sizeof(double)) && __CPROVER_w_ok(value, sizeof(double)))
+__CPROVER_assigns(*value)
+__CPROVER_ensures(XB_BITS(value) == XB_BITS(buf))
+;
+/* tconnect.c:618: strcmp against the three names */
+enum tconnect_algorithm tconnect_algorithm_enum(const char *str)
+__CPROVER_requires(__CPROVER_r_ok(str, 1))
+__CPROVER_assigns()
+__CPROVER_ensures((int)__CPROVER_return_value >= (int)tconnect_algorithm_none && (int)__CPROVER_return_value <= (int)tconnect_algorithm_happy_eyeballs)
+;
+/* any connection socket the attribute machinery can be handed: after btcp_init, in any later state */
+#define BT_ATTR_REQ(s) (__CPROVER_is_fresh(s, BT_SIZE) && (s)->type == xcm_socket_type_conn && BST(s) >= conn_state_initialized && BST(s) <= conn_state_bad)
+#define BT_DNS_T(s) (BT(s)->conn.dns_opts.timeout)
+#define BT_TCT(s) (BT(s)->conn.tcp_connect_timeout)
+
+static int set_dns_timeout_attr(struct xcm_socket *s, void *context, const void *value, size_t len)
+__CPROVER_requires(BT_ATTR_REQ(s) && len == sizeof(double) && __CPROVER_is_fresh(value, sizeof(double)) && BT_DNS_T(s) >= 0)
+__CPROVER_assigns(xv_errno, BT_DNS_T(s))
+__CPROVER_ensures(__CPROVER_return_value == 0 || (__CPROVER_return_value == -1 && xv_errno > 0))
+/* PO[C11] set_dns_timeout_attr.refused_after_creation */
+__CPROVER_ensures(!BT_IS(s, initialized) ==> (__CPROVER_return_value == -1 && xv_errno == EACCES))
+/* PO[C11] set_dns_timeout_attr.failure_changes_nothing */
+__CPROVER_ensures(__CPROVER_return_value == -1 ==> BT_DNS_T(s) == __CPROVER_old(BT_DNS_T(s)))
+/* PO[C11] set_dns_timeout_attr.accepted_is_stored */
+__CPROVER_ensures(__CPROVER_return_value == 0 ==> (XB_BITS(&BT_DNS_T(s)) == XB_BITS(value) && !BT(s)->conn.dns_opts.timeout_disabled))
+/* a negative time is refused; so is any value on a socket that never resolves (accepted connection / resolver without timeout support) */
+__CPROVER_ensures((BT_IS(s, initialized) && BT(s)->conn.dns_opts.timeout_disabled) ==> (__CPROVER_return_value == -1 && xv_errno == ENOENT))
+__CPROVER_ensures((BT_IS(s, initialized) && !BT(s)->conn.dns_opts.timeout_disabled && *(const double *)value < 0) ==> (__CPROVER_return_value == -1 && xv_errno == EINVAL))
+;
+
+static int set_dns_algorithm_attr(struct xcm_socket *s, void *context, const void *value, size_t len)
+__CPROVER_requires(BT_ATTR_REQ(s) && len >= 1 && len <= 32 && __CPROVER_is_fresh(value, len) && ((const char *)value)[len - 1] == 0)
+__CPROVER_assigns(xv_errno, BT(s)->conn.dns_algorithm)
+__CPROVER_ensures(__CPROVER_return_value == 0 || (__CPROVER_return_value == -1 && (xv_errno == EACCES || xv_errno == EINVAL)))
+/* PO[C11] set_dns_algorithm_attr.refused_after_creation */
+__CPROVER_ensures(!BT_IS(s, initialized) ==> (__CPROVER_return_value == -1 && xv_errno == EACCES))
+/* PO[C11] set_dns_algorithm_attr.failure_changes_nothing */
+__CPROVER_ensures(__CPROVER_return_value == -1 ==> BT(s)->conn.dns_algorithm == __CPROVER_old(BT(s)->conn.dns_algorithm))
+/* PO[C11] set_dns_algorithm_attr.accepted_is_a_known_algorithm */
+__CPROVER_ensures(__CPROVER_return_value == 0 ==> ((int)BT(s)->conn.dns_algorithm >= (int)tconnect_algorithm_single && (int)BT(s)->conn.dns_algorithm <= (int)tconnect_algorithm_happy_eyeballs))
+;
+
+static int set_tcp_connect_timeout_attr(struct xcm_socket *s, void *context, const void *value, size_t len)
+__CPROVER_requires(BT_ATTR_REQ(s) && len == sizeof(double) && __CPROVER_is_fresh(value, sizeof(double)) && BT_TCT(s) >= -1)
+__CPROVER_assigns(xv_errno, BT_TCT(s))
+__CPROVER_ensures(__CPROVER_return_value == 0 || (__CPROVER_return_value == -1 && (xv_errno == EACCES || xv_errno == EINVAL)))
+/* xcm.h: "tcp.connect_timeout ... Writable only at the time of the xcm_connect_a() call" */
+/* PO[C11] set_tcp_connect_timeout_attr.refused_after_creation */
+__CPROVER_ensures(!BT_IS(s, initialized) ==> (__CPROVER_return_value == -1 && xv_errno == EACCES))
+/* PO[C11] set_tcp_connect_timeout_attr.failure_changes_nothing */
+__CPROVER_ensures(__CPROVER_return_value == -1 ==> BT_TCT(s) == __CPROVER_old(BT_TCT(s)))
+/* PO[C11] set_tcp_connect_timeout_attr.accepted_is_stored */
+__CPROVER_ensures(__CPROVER_return_value == 0 ==> XB_BITS(&BT_TCT(s)) == XB_BITS(value))
+__CPROVER_ensures(*(const double *)value < 0 ==> __CPROVER_return_value == -1)
+/* PO[C11] set_tcp_connect_timeout_attr.stored_value_admissible: what is stored is a time (>= 0; in particular not NaN): btcp_connect hands it to tconnect as the timer value */
+__CPROVER_ensures(__CPROVER_return_value == 0 ==> BT_TCT(s) >= 0)
+;
+
+/* ipv6.scope: "Writable only at socket creation": a connection socket in state initialized, a server socket not yet created */
+static int set_scope_attr(struct xcm_socket *s, void *context, const void *value, size_t len)
+__CPROVER_requires(__CPROVER_is_fresh(s, BT_SIZE) && len == sizeof(int64_t) && __CPROVER_is_fresh(value, sizeof(int64_t)))
+__CPROVER_requires(s->type == xcm_socket_type_server || (s->type == xcm_socket_type_conn && BST(s) >= conn_state_initialized && BST(s) <= conn_state_bad))
+__CPROVER_requires(BT(s)->scope >= -1 && BT(s)->scope <= (int64_t)UINT32_MAX)
+__CPROVER_assigns(xv_errno, BT(s)->scope)
+__CPROVER_ensures(__CPROVER_return_value == 0 || (__CPROVER_return_value == -1 && (xv_errno == EACCES || xv_errno == EINVAL)))
+/* PO[C11] set_scope_attr.refused_after_creation */
+__CPROVER_ensures(((s->type == xcm_socket_type_conn && !BT_IS(s, initialized)) || (s->type == xcm_socket_type_server && BT(s)->server.created)) ==> \
+                  (__CPROVER_return_value == -1 && xv_errno == EACCES))
+/* PO[C11] set_scope_attr.failure_changes_nothing */
+__CPROVER_ensures(__CPROVER_return_value == -1 ==> BT(s)->scope == __CPROVER_old(BT(s)->scope))
+/* PO[C11] set_scope_attr.accepted_is_stored: a scope id is a uint32; an inherited scope cannot be replaced by another one */
+__CPROVER_ensures(__CPROVER_return_value == 0 ==> (BT(s)->scope == *(const int64_t *)value && BT(s)->scope >= 0 && BT(s)->scope <= (int64_t)UINT32_MAX && \
+                   (__CPROVER_old(BT(s)->scope) < 0 || __CPROVER_old(BT(s)->scope) == BT(s)->scope)))
+;
+
+/* xcm.local_addr: "Writable only if supplied to xcm_connect_a()".  Variant guard: any state but initialized; variant accept:
+ * state initialized, with strlen(3) routed through xb_strlen (harness/btcp/_unit.h), which records its result */
+#define XB_LA_MAX (XCM_ADDR_MAX + 8)
+static int btcp_set_local_addr(struct xcm_socket *s, const char *local_addr)
+__CPROVER_requires(BT_ATTR_REQ(s) && xb_la_len <= XB_LA_MAX && __CPROVER_is_fresh(local_addr, XB_LA_MAX + 1) && local_addr[xb_la_len] == 0)
+#ifdef XB_LA_GUARD
+__CPROVER_requires(!BT_IS(s, initialized))
+#else
+__CPROVER_requires(BT_IS(s, initialized))
+#endif
+__CPROVER_requires(xv_j >= 0 && xv_j <= XB_LA_MAX && (xv_j <= XCM_ADDR_MAX ==> BT(s)->laddr[xv_j] == (char)xv_g_sb_j))
+__CPROVER_assigns(xv_errno, __CPROVER_object_upto(BT(s)->laddr, XCM_ADDR_MAX + 1))
+#ifdef XB_STRLEN_GHOST
+__CPROVER_assigns(xb_strlen_ret)
+#endif
+__CPROVER_ensures(__CPROVER_return_value == 0 || (__CPROVER_return_value == -1 && (xv_errno == EACCES || xv_errno == EINVAL)))
+/* PO[C11] btcp_set_local_addr.refused_after_creation */
+__CPROVER_ensures(!BT_IS(s, initialized) ==> (__CPROVER_return_value == -1 && xv_errno == EACCES))
+/* PO[C11] btcp_set_local_addr.failure_changes_nothing: (for the arbitrary index xv_j: every byte of the stored address) */
+__CPROVER_ensures((__CPROVER_return_value == -1 && xv_j <= XCM_ADDR_MAX) ==> BT(s)->laddr[xv_j] == (char)xv_g_sb_j)
+#ifdef XB_STRLEN_GHOST
+/* PO[C11,C12] btcp_set_local_addr.too_long_refused */
+__CPROVER_ensures((BT_IS(s, initialized) && xb_strlen_ret > XCM_ADDR_MAX) ==> (__CPROVER_return_value == -1 && xv_errno == EINVAL))
+/* PO[C11] btcp_set_local_addr.accepted_is_stored: the whole string including its terminator */
+__CPROVER_ensures(__CPROVER_return_value == 0 ==> (xb_strlen_ret <= XCM_ADDR_MAX && BT(s)->laddr[xb_strlen_ret] == 0 && ((size_t)xv_j <= xb_strlen_ret ==> BT(s)->laddr[xv_j] == local_addr[xv_j])))
+#endif
+;
+
+/* ================================================================================================================ */
+/* socket creation: btcp_connect / btcp_accept establish the invariant (C13, C11, C05, C08)                          */
+/* ================================================================================================================ */
+/* tconnect.c:378 / xcm_dns_cares.c:177: a handle, or NULL with errno > 0 (socket(2), timerfd, c-ares configuration ...) */
+struct tconnect *tconnect_create(enum tconnect_algorithm algorithm, struct xpoll *xpoll, void *log_ref)
+__CPROVER_requires((int)algorithm >= (int)tconnect_algorithm_single && (int)algorithm <= (int)tconnect_algorithm_happy_eyeballs && XB_EXT(xb_tc_creates))
+__CPROVER_assigns(xv_errno, XP_REG_ROW, xb_tc_creates)
+__CPROVER_ensures((__CPROVER_return_value == NULL ==> (xv_errno > 0 && xv_errno != EAGAIN)) && XP_FOREIGN)
+__CPROVER_ensures(xb_tc_creates == __CPROVER_old(xb_tc_creates) + (__CPROVER_return_value != NULL ? 1 : 0))
+;
+struct xcm_dns_query *xcm_dns_resolve(const char *domain_name, struct xpoll *xpoll, double timeout, void *log_ref)
+__CPROVER_requires(__CPROVER_r_ok(domain_name, 1) && XB_EXT(xb_q_creates))
+__CPROVER_assigns(xv_errno, XP_REG_ROW, xb_q_completed, xb_q_creates)
+__CPROVER_ensures((__CPROVER_return_value == NULL ==> (xv_errno > 0 && xv_errno != EAGAIN)) && XP_FOREIGN)
+__CPROVER_ensures(xb_q_creates == __CPROVER_old(xb_q_creates) + (__CPROVER_return_value != NULL ? 1 : 0))
+;
+/* a connection socket as xcm_tp_socket_create + btcp_init + the attribute setters leave it */
+#define BT_FRESH_CONN(s) ((s)->type == xcm_socket_type_conn && BT_IS(s, initialized) && BT(s)->fd == -1 && BT(s)->fd_reg_id == -1 && \
+        BT(s)->conn.query == NULL && BT(s)->conn.tconnect == NULL && BT_BELL_OK(s) && B_OPTS_VALID(&BT(s)->conn.tcp_opts) && BT_LADDR_OK(s) && \
+        (BT(s)->conn.tcp_connect_timeout == -1 || BT(s)->conn.tcp_connect_timeout >= 0) && \
+        (int)BT(s)->conn.dns_algorithm >= (int)tconnect_algorithm_none && (int)BT(s)->conn.dns_algorithm <= (int)tconnect_algorithm_happy_eyeballs && \
+        !xv_lower_dead && BT(s)->scope >= -1 && BT(s)->scope <= (int64_t)UINT32_MAX)
+/* what deinit() does to a socket whose creation failed: registrations dropped, helper objects destroyed, descriptor closed */
+#define BT_CREATE_ASSIGNS(s) BT_EST_FIELDS(s), xv_errno, BT_EST_GHOSTS, xb_t_bell_live, xb_t_bell_ringing
+
+static int btcp_connect(struct xcm_socket *s, const char *remote_addr)
+__CPROVER_requires(__CPROVER_is_fresh(s, BT_SIZE) && BT_PROTO(s) && BT_FRESH_CONN(s) && BT_GHOST_RANGE && __CPROVER_is_fresh(remote_addr, 8))
+__CPROVER_requires(XB_CNT_OK(xb_tc_creates) && XB_CNT_OK(xb_q_creates))
+__CPROVER_assigns(xb_tc_creates, xb_q_creates)
+__CPROVER_assigns(BT_CREATE_ASSIGNS(s), BT(s)->conn.remote_port, BT(s)->conn.dns_algorithm, BT(s)->conn.tcp_connect_timeout, XB_CLOSE_REC, XB_FDT_ASSIGNS)
+__CPROVER_ensures(__CPROVER_return_value == 0 || (__CPROVER_return_value == -1 && xv_errno > 0))
+/* PO[C13,C06] btcp_connect.success_establishes_invariant: 0 => resolving, connecting or (already) ready, never a terminal state; every later operation starts from BT_CONN_OK */
+__CPROVER_ensures(__CPROVER_return_value == 0 ==> (BT_CONN_OK(s) && (BT_IS(s, resolving) || BT_IS(s, connecting) || BT_IS(s, ready)) && BT_BELL_OK(s)))
+/* PO[C13,C06] btcp_connect.immediate_failure_is_reported: a connection that is bad already is reported by connect itself, with the stored errno */
+__CPROVER_ensures((__CPROVER_return_value == -1 && BT_IS(s, bad)) ==> xv_errno == BRSN(s))
+/* PO[C13] btcp_connect.defaults: algorithm "single" and a 3 s connect timeout unless configured */
+__CPROVER_ensures(__CPROVER_return_value == 0 ==> ((int)BT(s)->conn.dns_algorithm >= (int)tconnect_algorithm_single && BT(s)->conn.tcp_connect_timeout >= 0 && \
+                   (__CPROVER_old(BT(s)->conn.tcp_connect_timeout) >= 0 ==> BT(s)->conn.tcp_connect_timeout == __CPROVER_old(BT(s)->conn.tcp_connect_timeout))))
+/* PO[C08] btcp_connect.failure_releases_everything: -1 => the bell registration is dropped, every attempt object and resolver query made is destroyed exactly once, no descriptor kept */
+__CPROVER_ensures(__CPROVER_return_value == -1 ==> ((BT_MY_BELL(s) ==> !xb_t_bell_live) && BT(s)->fd == -1 && xb_close_calls <= __CPROVER_old(xb_close_calls) + 1 && \
+                   xb_tc_destroys - __CPROVER_old(xb_tc_destroys) == xb_tc_creates - __CPROVER_old(xb_tc_creates) && \
+                   xb_q_destroys - __CPROVER_old(xb_q_destroys) == xb_q_creates - __CPROVER_old(xb_q_creates)))
+/* PO[C08] btcp_connect.success_keeps_what_is_needed: 0 => nothing is destroyed that is still referenced */
+__CPROVER_ensures(__CPROVER_return_value == 0 ==> (xb_close_calls == __CPROVER_old(xb_close_calls) && \
+                   xb_tc_creates - xb_tc_destroys == __CPROVER_old(xb_tc_creates) - __CPROVER_old(xb_tc_destroys) + (BT(s)->conn.tconnect != NULL ? 1 : 0) && \
+                   xb_q_creates - xb_q_destroys == __CPROVER_old(xb_q_creates) - __CPROVER_old(xb_q_destroys) + (BT(s)->conn.query != NULL ? 1 : 0)))
+;
+
+/* btcp_accept: the descriptor table is in the frame */
+#define BT_FD_SAME(i) (!xb_fdt.e[i].open == !__CPROVER_old(xb_fdt.e[i].open) && (xb_fdt.e[i].open ==> !xb_fdt.e[i].nonblock == !__CPROVER_old(xb_fdt.e[i].nonblock)))
+#define XB_FK_OK (xb_fk >= 0 && xb_fk < XB_NFD)
+static int btcp_accept(struct xcm_socket *conn_s, struct xcm_socket *server_s)
+__CPROVER_requires(__CPROVER_is_fresh(conn_s, BT_SIZE) && BT_PROTO(conn_s) && BT_FRESH_CONN(conn_s) && BT_GHOST_RANGE && XB_FK_OK)
+__CPROVER_requires(__CPROVER_is_fresh(server_s, BT_SIZE) && BT_PROTO(server_s) && server_s->type == xcm_socket_type_server && XB_FD_OK(BT(server_s)->fd))
+/* xpoll registrations are dropped before their descriptor is closed (deinit), so a live registration names an open descriptor */
+__CPROVER_requires(xb_t_reg_live ==> XB_FD_OURS(xb_t_reg_fd))
+__CPROVER_assigns(BST(conn_s), BT(conn_s)->fd, BT(conn_s)->fd_reg_id, xv_errno, xv_lower_dead, XP_REG_ROW, B_SO_ASSIGNS, xb_eff_errno, xb_eff_calls, \
+                  xb_tc_destroys, xb_q_destroys, xb_t_bell_live, xb_t_bell_ringing, XB_ACCEPT_REC, XB_CLOSE_REC, XB_FDT_ASSIGNS)
+__CPROVER_ensures(__CPROVER_return_value == 0 || (__CPROVER_return_value == -1 && xv_errno > 0))
+/* PO[C11] btcp_accept.connect_only_attributes_refused: xcm.local_addr, dns.algorithm, tcp.connect_timeout on xcm_accept_a => EACCES, nothing accepted */
+__CPROVER_ensures((BT(conn_s)->laddr[0] != 0 || BT(conn_s)->conn.dns_algorithm != tconnect_algorithm_none || BT(conn_s)->conn.tcp_connect_timeout >= 0) ==> \
+                  (__CPROVER_return_value == -1 && xv_errno == EACCES && xb_accept_calls == __CPROVER_old(xb_accept_calls)))
+/* PO[C05] btcp_accept.one_nonblocking_accept: at most one accept4 on the server's descriptor; the new descriptor is O_NONBLOCK */
+__CPROVER_ensures(xb_accept_calls <= __CPROVER_old(xb_accept_calls) + 1 && (xb_accept_calls != __CPROVER_old(xb_accept_calls) ==> xb_accept_fd == BT(server_s)->fd))
+/* PO[C11,C06,C08] btcp_accept.success_establishes_invariant: 0 => ready on the accepted descriptor, registered, the socket's TCP options in force on it */
+__CPROVER_ensures(__CPROVER_return_value == 0 ==> (BT_CONN_OK(conn_s) && BT_IS(conn_s, ready) && BT(conn_s)->fd == xb_accept_ret && xb_open_cnt == __CPROVER_old(xb_open_cnt) + 1 && \
+                   B_OPTS_INFORCE(BT(conn_s)->fd, &BT(conn_s)->conn.tcp_opts) && (BT_MY_REG(conn_s) ==> xb_t_reg_event == 0)))
+/* PO[C08] btcp_accept.failure_leaks_nothing: -1 => no descriptor more than before (an accepted one is closed again), the bell registration dropped */
+__CPROVER_ensures(__CPROVER_return_value == -1 ==> (xb_open_cnt == __CPROVER_old(xb_open_cnt) && BT_FD_SAME(xb_fk) && BT(conn_s)->fd == -1 && \
+                   (xb_t_bell == BT(conn_s)->conn.bell_reg_id ==> !xb_t_bell_live)))
+/* PO[C08] btcp_accept.other_descriptors_untouched */
+__CPROVER_ensures((__CPROVER_return_value == 0 && xb_fk != BT(conn_s)->fd) ==> BT_FD_SAME(xb_fk))
 ;
 
 #include "contracts/end.h"
